@@ -90,8 +90,13 @@ def gen(rng, tier, run):
             env = gen_env(rng)
             ops.append(['crash', env, rng.randrange(len(env)), rng.choice(['empty', 'partial', 'partial', 'most']),
                         rng.random()])
-        elif r < 0.6:
+        elif r < 0.57:
             ops.append(['delete', rng.randrange(NTASKS)])
+        elif r < 0.62:
+            # the environment file cannot even be opened (OSError other than ENOENT), for reading or writing
+            ops.append(['block', rng.randrange(NTASKS), rng.choice(['notdir', 'isdir', 'loop'])])
+        elif r < 0.64:
+            ops.append(['unblock', rng.randrange(NTASKS)])
         elif r < 0.7:
             gi = rng.randrange(100)
             if classify(garbage_bytes(gi)) not in ('other', 'env'):
@@ -163,15 +168,39 @@ def run_impl(case, run):
                     full = pickle.dumps(Env({f't{t}': build_env([entries[n]], root)[f't{t}']}))
                     k = 0 if cut == 'empty' else (len(full) - 1 if cut == 'most' else 1 + int(op[4] * (len(full) - 2)))
                     path = os.path.join(root, f't{outdir}', FILENAME)
-                    with open(path, 'wb') as fobj:
-                        fobj.write(full[:k])
+                    try:
+                        with open(path, 'wb') as fobj:
+                            fobj.write(full[:k])
+                    except OSError:
+                        pass    # blocked directory: the real to_file logs the error and goes on
                 outs.append('ok')
             elif name == 'delete':
                 path = os.path.join(root, f't{op[1]}', FILENAME)
-                if os.path.exists(path):
+                if os.path.isfile(path) and not os.path.islink(path):
                     os.remove(path)
                 outs.append('ok')
+            elif name in ('block', 'unblock'):
+                tdir = os.path.join(root, f't{op[1]}')
+                if os.path.isdir(tdir) and not os.path.islink(tdir):
+                    shutil.rmtree(tdir)
+                elif os.path.lexists(tdir):
+                    os.remove(tdir)
+                if name == 'unblock' or op[2] != 'notdir':
+                    os.makedirs(tdir)
+                if name == 'block':
+                    if op[2] == 'notdir':       # a regular file where the task directory should be: ENOTDIR
+                        with open(tdir, 'w', encoding='utf-8') as fobj:
+                            fobj.write('x')
+                    elif op[2] == 'isdir':      # the environment file is a directory: EISDIR
+                        os.makedirs(os.path.join(tdir, FILENAME))
+                    else:                       # a symbolic link pointing to itself: ELOOP
+                        os.symlink(FILENAME, os.path.join(tdir, FILENAME))
+                outs.append('ok')
             elif name == 'garbage':
+                if not os.path.isdir(os.path.join(root, f't{op[1]}')) or os.path.lexists(os.path.join(root, f't{op[1]}', FILENAME)) \
+                        and not os.path.isfile(os.path.join(root, f't{op[1]}', FILENAME)):
+                    outs.append('ok')
+                    continue
                 with open(os.path.join(root, f't{op[1]}', FILENAME), 'wb') as fobj:
                     fobj.write(garbage_bytes(op[2]))
                 outs.append('ok')
@@ -188,7 +217,7 @@ def run_impl(case, run):
                                                 if isinstance(exc, c)), 'other'), 'type': type(exc).__name__})
         # every-byte truncation sweep of one file written by this history (all of them in the thorough tier)
         files = [os.path.join(root, f't{t}', FILENAME) for t in range(NTASKS)]
-        files = [f for f in files if os.path.exists(f) and classify(open(f, 'rb').read()) == 'env']
+        files = [f for f in files if os.path.isfile(f) and classify(open(f, 'rb').read()) == 'env']
         if run.tier != 'thorough':
             files = files[:1]
         for path in files:
@@ -214,10 +243,29 @@ def run_impl(case, run):
     return {'outs': outs, 'sweep': sweep}
 
 
+def drop_blocked(entries, blocked):
+    return [[t, st, (None if d in blocked else d), p] for t, st, d, p in entries]
+
+
 def to_model_ops(case):
+    """The model has no notion of 'open() raises OSError': a blocked directory is modelled as an absent file, and
+    writes into it are dropped here (Env.to_file logs the OSError and goes on), as are deletions/corruptions of it."""
     ops = []
+    blocked = set()
     for op in case['ops']:
-        if op[0] == 'crash':
+        if op[0] == 'block':
+            blocked.add(op[1])
+            ops.append(['delete', op[1]])
+        elif op[0] == 'unblock':
+            blocked.discard(op[1])
+            ops.append(['delete', op[1]])
+        elif op[0] == 'write':
+            ops.append(['write', drop_blocked(op[1], blocked)])
+        elif op[0] in ('delete', 'garbage') and op[1] in blocked:
+            ops.append(['delete', op[1]])
+        elif op[0] == 'crash':
+            ops.append(['crash', drop_blocked(op[1], blocked), op[2], op[3]])
+        elif False:
             ops.append(['crash', op[1], op[2], op[3]])
         elif op[0] == 'garbage':
             ops.append(['garbage', op[1], classify(garbage_bytes(op[2]))])
@@ -242,6 +290,7 @@ def oracle(case, impl, run):
     fails = []
     # ghost state: per directory: ('absent',) | ('complete', t, status, outdir, p) | ('bad',)
     ghost = {}
+    blocked = set()
     nontriv = False
     damaged = False
     for i, (op, out) in enumerate(zip(case['ops'], impl['outs'])):
@@ -250,21 +299,29 @@ def oracle(case, impl, run):
         if name in ('write', 'crash'):
             entries = op[1] if name == 'write' else op[1][:op[2]]
             for t, status, outdir, p in entries:
-                if outdir is not None:
+                if outdir is not None and outdir not in blocked:
                     ghost[outdir] = ('complete', t, status, outdir, p)
             if name == 'crash':
                 damaged = True
                 t, status, outdir, p = op[1][op[2]]
                 run.count('cut:' + op[3])
-                if outdir is not None:
+                if outdir is not None and outdir not in blocked:
                     ghost[outdir] = ('bad',)
-        elif name == 'delete':
+        elif name in ('block', 'unblock'):
             damaged = True
             ghost.pop(op[1], None)
+            (blocked.add if name == 'block' else blocked.discard)(op[1])
+            if name == 'block':
+                run.count('block:' + op[2])
+        elif name == 'delete':
+            damaged = True
+            if op[1] not in blocked:
+                ghost.pop(op[1], None)
         elif name == 'garbage':
             damaged = True
             run.count('garbage:' + classify(garbage_bytes(op[2])))
-            ghost[op[1]] = ('bad',)
+            if op[1] not in blocked:
+                ghost[op[1]] = ('bad',)
         elif name == 'read':
             if 'raise' in out:
                 fails.append(('read_never_raises', f"op#{i} read_env raised {out.get('type')}"))
